@@ -685,6 +685,11 @@ def make_api_module(I, registry):
     def _susp(I_, args, kw):
         return len([e for e in I_.ctx.events if e[0] == "suspend"])
 
+    @nf("suspension_point")
+    def _susp_point(I_, args, kw):
+        """an await of something that may suspend the task (cancellation may be delivered here)"""
+        I_.ctx.suspend(I_, args[0] if args else "await")
+
     @nf("set_sleep_model")
     def _set_sleep(I_, args, kw):
         f = args[0]
